@@ -146,3 +146,36 @@ Proof.
   try (destruct H as (H1 & H2 & [H3|H3] & H4); discriminate).
   all: repeat split; auto.
 Qed.
+
+(* ---- whole programs: the verdict is the conjunction of the per-operation verdicts and of the two
+   global passes (redeclaration, label/data layout) — nothing else can reject a program ------------- *)
+Fixpoint steps_clean (c : csettings) (t : tcstate) (ops : list op) : Prop :=
+  match ops with
+  | [] => True
+  | o :: r => has_errors (step_msgs c t o) = false /\ steps_clean c (typecheck_step c t o) r
+  end.
+
+Lemma step_msgs_app c t o : tc_msgs (typecheck_step c t o) = tc_msgs t ++ step_msgs c t o.
+Proof.
+  unfold step_msgs. set (l := tc_msgs (typecheck_step c t o)).
+  assert (E : exists x, l = tc_msgs t ++ x) by (unfold l, typecheck_step; cbn [tc_msgs]; eexists; reflexivity).
+  destruct E as [x ->]. rewrite skipn_app, skipn_all, Nat.sub_diag. reflexivity.
+Qed.
+
+Lemma fold_clean c ops : forall t,
+  has_errors (tc_msgs (fold_left (typecheck_step c) ops t)) = false <->
+  has_errors (tc_msgs t) = false /\ steps_clean c t ops.
+Proof.
+  induction ops as [|o r IH]; intros t; cbn [fold_left steps_clean]; [tauto|].
+  rewrite IH, step_msgs_app, has_errors_app, orb_false_iff. tauto.
+Qed.
+
+Theorem program_accept_exact c ops :
+  has_errors (snd (typecheck c ops)) = false <->
+  has_errors (check_redecl ops []) = false /\
+  has_errors (snd (get_labels c ops)) = false /\
+  steps_clean c (mktc (fst (get_labels c ops)) false (check_redecl ops [] ++ snd (get_labels c ops))) ops.
+Proof.
+  unfold typecheck. destruct (get_labels c ops) as [st m1]. cbn [fst snd].
+  rewrite fold_clean. cbn [tc_msgs]. rewrite has_errors_app, orb_false_iff. tauto.
+Qed.
